@@ -865,8 +865,12 @@ def _f_mul(a, b):
     x, y = a.f, b.f
     if S.fexact:
         return FFloat(z3.fpMul(RNE, x, y))
-    for k in (a, b):
+    for k, other in ((a, b), (b, a)):
         c = k.concrete()
+        if c is not None and c == 1.0:
+            return FFloat(other.f)               # IEEE: x * 1.0 is x for every x (sign of zero, infinities, NaN included)
+        if c is not None and c == -1.0:
+            return FFloat(z3.fpNeg(other.f))
         if c is not None and c == c and c != 0 and math.isfinite(c) and math.frexp(abs(c))[0] == 0.5:
             return FFloat(z3.fpMul(RNE, x, y))   # power of two: cheap for the bit-blaster
     if x.get_id() > y.get_id():
@@ -912,6 +916,8 @@ def _f_div(a, b):
     if S.fexact:
         return FFloat(z3.fpDiv(RNE, x, y))
     c = b.concrete()
+    if c is not None and c == 1.0:
+        return FFloat(x)                         # IEEE: x / 1.0 is x for every x
     if c is not None and c == c and c != 0 and math.isfinite(c) and math.frexp(abs(c))[0] == 0.5:
         return FFloat(z3.fpDiv(RNE, x, y))
     Z, ONE = _f_consts()
